@@ -24,7 +24,8 @@ VARIABLES l, cfg, st, lastres, nrows, pend, dead
 vars == <<l, cfg, st, lastres, nrows, pend, dead>>
 \* st, lastres: sequences (one entry per call) of functions partitionKey -> state / last result, kept as seq of [k, s]
 
-NoState == [hist |-> <<>>, has |-> FALSE, val |-> Null, sum |-> 0, cnt |-> 0, num |-> 0, hasnum |-> FALSE, started |-> FALSE, first |-> TRUE]
+NoState == [hist |-> <<>>, has |-> FALSE, val |-> Null, sum |-> 0, cnt |-> 0, num |-> 0, hasnum |-> FALSE, started |-> FALSE, first |-> TRUE,
+            base |-> [x \in {} |-> Null]]      \* base: had_changed(ign, *) - the row (column name -> value) the next row is compared with
 Lookup(tab, k, dflt) == LET hits == {i \in 1..Len(tab) : tab[i].k = k} IN IF hits = {} THEN dflt ELSE tab[CHOOSE i \in hits : TRUE].s
 Store(tab, k, s) == LET hits == {i \in 1..Len(tab) : tab[i].k = k} IN
                     IF hits = {} THEN Append(tab, [k |-> k, s |-> s]) ELSE [tab EXCEPT ![CHOOSE i \in hits : TRUE].s = s]
@@ -48,6 +49,15 @@ Step(c, s, row) ==
          IF s.first THEN <<[s EXCEPT !.first = FALSE, !.val = v], BoolV(TRUE)>>
          ELSE IF c.ign = 1 /\ IsNull(v) THEN <<s, BoolV(FALSE)>>
          ELSE <<[s EXCEPT !.val = v], BoolV(~NumEq(s.val, v))>>
+    \* had_changed(ign, *): the whole row compared by column name with the baseline: a column that is new, changed or gone is a
+    \* change; with ign a NULL column neither counts as changed nor replaces its baseline value (the first row is a change)
+    [] c.fn = "had_changed_star" ->
+         LET skip(k) == c.ign = 1 /\ IsNull(row[k])
+             nb == [k \in {k \in DOMAIN row : ~skip(k) \/ k \in DOMAIN s.base} |-> IF skip(k) THEN s.base[k] ELSE row[k]]
+         IN IF s.first THEN <<[s EXCEPT !.first = FALSE, !.base = [k \in {k \in DOMAIN row : ~skip(k)} |-> row[k]]], BoolV(TRUE)>>
+            ELSE <<[s EXCEPT !.base = nb],
+                   BoolV((\E k \in DOMAIN row : ~skip(k) /\ (k \notin DOMAIN s.base \/ ~NumEq(s.base[k], row[k])))
+                         \/ (\E k \in DOMAIN s.base : k \notin DOMAIN row /\ ~(c.ign = 1 /\ IsNull(s.base[k]))))>>
     [] c.fn = "changed_col" ->
          IF c.ign = 1 /\ IsNull(v) THEN <<s, Null>>
          ELSE <<[s EXCEPT !.val = v, !.has = TRUE], IF ~s.has \/ ~NumEq(s.val, v) THEN v ELSE Null>>
@@ -68,7 +78,9 @@ Step(c, s, row) ==
                       [] c.fn = "acc_min" -> IF st1.hasnum THEN [k |-> "num", v |-> st1.num] ELSE Null
          IN <<st1, res>>
 
-PartKey(row) == IF cfg.part = "" THEN <<"all">> ELSE KeyOf(Col(row, cfg.part))
+PartKey(row) == IF cfg.part = "" THEN <<"all">>
+                ELSE IF "partpath" \in DOMAIN cfg THEN KeyOf(ColPath(row, cfg.partpath))      \* nested partition column
+                ELSE KeyOf(Col(row, cfg.part))
 Gate(row) == "when" \notin DOMAIN cfg \/ TruthOf(cfg.when, row)
 
 ResOK(e, x) == IF x.k = "avg" THEN e.k = "num" /\ Within(e.v * x.d, x.n, x.d) ELSE Same(e, x)
